@@ -9,6 +9,7 @@
 //	R2 pool       sync.Pool{New: ...}             -> verifPool{Name: "<var>", New: ...}
 //	R3 map order  range <package map | map field> -> range verifOrdered("<site>", <expr>); sync.Map -> verifSyncMap (Range order)
 //	R4 yields     first statement of every func   -> verifYield(<n>)   (optional)
+//	R6 randomness math/rand and math/rand/v2 package-level functions -> verifRand / verifRand2 (seeded per episode)
 //	R5 locks      sync.Mutex / sync.RWMutex       -> verifMutex / verifRWMutex (TryLock loop that reports
 //	                                                 "blocked" to the scheduler instead of blocking the
 //	                                                 one running goroutine; no site on the pinned tree)
@@ -56,7 +57,7 @@ type edit struct {
 // Build parses the tree and writes the overlay. A rule that finds no site is
 // not an error (the check then runs with fewer seams and says so).
 func Build(opt Options) (*Report, error) {
-	rep := &Report{Seams: map[string]int{"R1": 0, "R2": 0, "R3": 0, "R4": 0, "R5": 0}, Replaced: map[string]string{}}
+	rep := &Report{Seams: map[string]int{"R1": 0, "R2": 0, "R3": 0, "R4": 0, "R5": 0, "R6": 0}, Replaced: map[string]string{}}
 	if err := os.MkdirAll(opt.OutDir, 0o755); err != nil {
 		return nil, err
 	}
@@ -173,10 +174,13 @@ func Build(opt Options) (*Report, error) {
 	}
 	for _, file := range files {
 		var edits []edit
-		timeAlias, syncAlias := "", ""
+		timeAlias, syncAlias, randAlias, rand2Alias := "", "", "", ""
 		for _, im := range file.f.Imports {
 			p, _ := strconv.Unquote(im.Path.Value)
 			name := filepath.Base(p)
+			if len(name) >= 2 && name[0] == 'v' && strings.Trim(name[1:], "0123456789") == "" {
+				name = filepath.Base(filepath.Dir(p)) // math/rand/v2 is package rand
+			}
 			if im.Name != nil {
 				name = im.Name.Name
 			}
@@ -185,10 +189,14 @@ func Build(opt Options) (*Report, error) {
 				timeAlias = name
 			case "sync":
 				syncAlias = name
+			case "math/rand":
+				randAlias = name
+			case "math/rand/v2":
+				rand2Alias = name
 			}
 		}
 		base := filepath.Base(file.path)
-		usedR1, usedR2, usedR5 := false, false, false
+		usedR1, usedR2, usedR5, usedR6 := false, false, false, ""
 		off := func(p token.Pos) int { return fset.Position(p).Offset }
 
 		// R2 needs the variable name: walk value specs.
@@ -285,6 +293,20 @@ func Build(opt Options) (*Report, error) {
 						}
 						return true
 					}
+					// R6: package-level functions of math/rand and math/rand/v2 -> a generator the simulator seeds
+					if id, ok := x.X.(*ast.Ident); ok && id.Obj == nil {
+						if (id.Name == randAlias && randAlias != "" && randV1[x.Sel.Name]) || (id.Name == rand2Alias && rand2Alias != "" && randV2[x.Sel.Name]) {
+							repl := "verifRand"
+							if id.Name == rand2Alias && rand2Alias != "" {
+								repl = "verifRand2"
+							}
+							edits = append(edits, edit{off(x.X.Pos()), off(x.X.End()) - off(x.X.Pos()), repl})
+							rep.Seams["R6"]++
+							rep.Sites = append(rep.Sites, fmt.Sprintf("R6 %s:%d %s.%s in %s", base, fset.Position(x.Pos()).Line, id.Name, x.Sel.Name, curFunc))
+							usedR6 = id.Name
+							return true
+						}
+					}
 					// R3b: sync.Map in any type position -> a map whose Range order the simulator decides
 					if syncAlias != "" && x.Sel.Name == "Map" {
 						if id, ok := x.X.(*ast.Ident); ok && id.Name == syncAlias && id.Obj == nil {
@@ -349,6 +371,9 @@ func Build(opt Options) (*Report, error) {
 		if usedR5 {
 			out = append(out, []byte("\nvar _ "+syncAlias+".Once\n")...)
 		}
+		if usedR6 != "" {
+			out = append(out, []byte("\nvar _ = "+usedR6+".Int\n")...)
+		}
 		dst := filepath.Join(opt.OutDir, "slog_"+base)
 		if err := os.WriteFile(dst, out, 0o644); err != nil {
 			return nil, err
@@ -401,6 +426,11 @@ func Build(opt Options) (*Report, error) {
 	sort.Strings(rep.Sites)
 	return rep, nil
 }
+
+var randV1 = map[string]bool{"Int": true, "Intn": true, "Int31": true, "Int31n": true, "Int63": true, "Int63n": true, "Uint32": true, "Uint64": true,
+	"Float32": true, "Float64": true, "Perm": true, "Shuffle": true, "NormFloat64": true, "ExpFloat64": true, "Seed": true}
+var randV2 = map[string]bool{"Int": true, "IntN": true, "Int32": true, "Int32N": true, "Int64": true, "Int64N": true, "Uint32": true, "Uint32N": true,
+	"Uint64": true, "Uint64N": true, "UintN": true, "Float32": true, "Float64": true, "Perm": true, "Shuffle": true, "NormFloat64": true, "ExpFloat64": true}
 
 func recvName(e ast.Expr) string {
 	switch x := e.(type) {
@@ -468,6 +498,8 @@ import (
 	"cmp"
 	"fmt"
 	"iter"
+	mrand "math/rand"
+	mrand2 "math/rand/v2"
 	"slices"
 	"sync"
 	"time"
@@ -691,6 +723,208 @@ func (s *verifSyncMap) Range(f func(k, v any) bool) {
 			return
 		}
 	}
+}
+
+// VerifRand / VerifRand2 replace the package-level generators of math/rand and math/rand/v2 (rule R6);
+// nil = the real ones.
+var VerifRand *mrand.Rand
+var VerifRand2 *mrand2.Rand
+
+type verifRandT struct{}
+type verifRand2T struct{}
+
+var verifRand verifRandT
+var verifRand2 verifRand2T
+
+func (verifRandT) Seed(s int64) {}
+func (verifRandT) Int() int {
+	if r := VerifRand; r != nil {
+		return r.Int()
+	}
+	return mrand.Int()
+}
+func (verifRandT) Intn(n int) int {
+	if r := VerifRand; r != nil {
+		return r.Intn(n)
+	}
+	return mrand.Intn(n)
+}
+func (verifRandT) Int31() int32 {
+	if r := VerifRand; r != nil {
+		return r.Int31()
+	}
+	return mrand.Int31()
+}
+func (verifRandT) Int31n(n int32) int32 {
+	if r := VerifRand; r != nil {
+		return r.Int31n(n)
+	}
+	return mrand.Int31n(n)
+}
+func (verifRandT) Int63() int64 {
+	if r := VerifRand; r != nil {
+		return r.Int63()
+	}
+	return mrand.Int63()
+}
+func (verifRandT) Int63n(n int64) int64 {
+	if r := VerifRand; r != nil {
+		return r.Int63n(n)
+	}
+	return mrand.Int63n(n)
+}
+func (verifRandT) Uint32() uint32 {
+	if r := VerifRand; r != nil {
+		return r.Uint32()
+	}
+	return mrand.Uint32()
+}
+func (verifRandT) Uint64() uint64 {
+	if r := VerifRand; r != nil {
+		return r.Uint64()
+	}
+	return mrand.Uint64()
+}
+func (verifRandT) Float32() float32 {
+	if r := VerifRand; r != nil {
+		return r.Float32()
+	}
+	return mrand.Float32()
+}
+func (verifRandT) Float64() float64 {
+	if r := VerifRand; r != nil {
+		return r.Float64()
+	}
+	return mrand.Float64()
+}
+func (verifRandT) NormFloat64() float64 {
+	if r := VerifRand; r != nil {
+		return r.NormFloat64()
+	}
+	return mrand.NormFloat64()
+}
+func (verifRandT) ExpFloat64() float64 {
+	if r := VerifRand; r != nil {
+		return r.ExpFloat64()
+	}
+	return mrand.ExpFloat64()
+}
+func (verifRandT) Perm(n int) []int {
+	if r := VerifRand; r != nil {
+		return r.Perm(n)
+	}
+	return mrand.Perm(n)
+}
+func (verifRandT) Shuffle(n int, swap func(i, j int)) {
+	if r := VerifRand; r != nil {
+		r.Shuffle(n, swap)
+		return
+	}
+	mrand.Shuffle(n, swap)
+}
+
+func (verifRand2T) Int() int {
+	if r := VerifRand2; r != nil {
+		return r.Int()
+	}
+	return mrand2.Int()
+}
+func (verifRand2T) IntN(n int) int {
+	if r := VerifRand2; r != nil {
+		return r.IntN(n)
+	}
+	return mrand2.IntN(n)
+}
+func (verifRand2T) Int32() int32 {
+	if r := VerifRand2; r != nil {
+		return r.Int32()
+	}
+	return mrand2.Int32()
+}
+func (verifRand2T) Int32N(n int32) int32 {
+	if r := VerifRand2; r != nil {
+		return r.Int32N(n)
+	}
+	return mrand2.Int32N(n)
+}
+func (verifRand2T) Int64() int64 {
+	if r := VerifRand2; r != nil {
+		return r.Int64()
+	}
+	return mrand2.Int64()
+}
+func (verifRand2T) Int64N(n int64) int64 {
+	if r := VerifRand2; r != nil {
+		return r.Int64N(n)
+	}
+	return mrand2.Int64N(n)
+}
+func (verifRand2T) Uint32() uint32 {
+	if r := VerifRand2; r != nil {
+		return r.Uint32()
+	}
+	return mrand2.Uint32()
+}
+func (verifRand2T) Uint32N(n uint32) uint32 {
+	if r := VerifRand2; r != nil {
+		return r.Uint32N(n)
+	}
+	return mrand2.Uint32N(n)
+}
+func (verifRand2T) Uint64() uint64 {
+	if r := VerifRand2; r != nil {
+		return r.Uint64()
+	}
+	return mrand2.Uint64()
+}
+func (verifRand2T) Uint64N(n uint64) uint64 {
+	if r := VerifRand2; r != nil {
+		return r.Uint64N(n)
+	}
+	return mrand2.Uint64N(n)
+}
+func (verifRand2T) UintN(n uint) uint {
+	if r := VerifRand2; r != nil {
+		return r.UintN(n)
+	}
+	return mrand2.UintN(n)
+}
+func (verifRand2T) Float32() float32 {
+	if r := VerifRand2; r != nil {
+		return r.Float32()
+	}
+	return mrand2.Float32()
+}
+func (verifRand2T) Float64() float64 {
+	if r := VerifRand2; r != nil {
+		return r.Float64()
+	}
+	return mrand2.Float64()
+}
+func (verifRand2T) NormFloat64() float64 {
+	if r := VerifRand2; r != nil {
+		return r.NormFloat64()
+	}
+	return mrand2.NormFloat64()
+}
+func (verifRand2T) ExpFloat64() float64 {
+	if r := VerifRand2; r != nil {
+		return r.ExpFloat64()
+	}
+	return mrand2.ExpFloat64()
+}
+func (verifRand2T) Perm(n int) []int {
+	if r := VerifRand2; r != nil {
+		return r.Perm(n)
+	}
+	return mrand2.Perm(n)
+}
+func (verifRand2T) Shuffle(n int, swap func(i, j int)) {
+	if r := VerifRand2; r != nil {
+		r.Shuffle(n, swap)
+		return
+	}
+	mrand2.Shuffle(n, swap)
 }
 
 // VerifYield is the fine-grained preemption seam (rule R4).
